@@ -18,7 +18,7 @@ RULE = ("random shots with twist 0 (all shipped tables + smooth custom tables, B
         "segments incl. boundaries inside / at / beyond the range and opposing winds), ranges 300-4500 ft, 6-12 recorded "
         "distances; each fired at step h0, h0/2, h0/4 (thorough: also h0/8, and h0 in {0.5, 0.25, 0.125}); a case = (shot, range, h0); "
         "non-trivial when the shot has wind, a non-zero look / cant angle, an altitude change above 30 ft or is a vacuum shot")
-MUST_OBSERVE = ["shots_exact_line_table", "shots", "rows_compared", "shots_with_wind_switch_inside_range", "shots_altitude_change_over_30ft", "vacuum_shots",
+MUST_OBSERVE = ["shots_with_debug_logging_on", "shots_exact_line_table", "shots", "rows_compared", "shots_with_wind_switch_inside_range", "shots_altitude_change_over_30ft", "vacuum_shots",
                 "shots_canted", "shots_inclined", "halvings_checked", "muzzle_rows_checked", "reference_runs"]
 ASSUMPTIONS = ["R-ODE (vf/refs.py): RK4, dt = h_ref/|v-w|, lands exactly on wind boundaries and recorded distances; run at h_ref and "
                "2 h_ref, the difference is its own error estimate e_ref and enters every tolerance (x10); h_ref is halved from 0.05 ft "
@@ -35,9 +35,19 @@ def budget(tier):
     return {"shards": 14, "deadline_s": 90 if tier == "quick" else 2400}
 
 
-def solver_rows(spec, h, r_ft, step_ft, trace=None):
+def solver_rows(spec, h, r_ft, step_ft, trace=None, debug=False):
     calc = build.calculator({"max_calc_step_size_feet": h, "cMinimumVelocity": 0.0})
     shot = build.shot(spec)
+    if debug:
+        pb.set_debug(True)          # the library's public debug-logging switch: what is logged must not change what is computed
+    try:
+        return _solver_rows(calc, shot, r_ft, step_ft, trace)
+    finally:
+        if debug:
+            pb.set_debug(False)
+
+
+def _solver_rows(calc, shot, r_ft, step_ft, trace):
     with monitors.quiet():
         if trace is not None:
             with trace:
@@ -95,7 +105,7 @@ def check_case(ctx, case):
     runs = []
     try:
         for k, h in enumerate(hs):
-            rows, raw = solver_rows(spec, h, r_ft, step_ft, trace if k == 0 else None)
+            rows, raw = solver_rows(spec, h, r_ft, step_ft, trace if k == 0 else None, debug=bool(case.get("debug")))
             runs.append(rows)
     except pb.RangeError:
         ctx.count("shots_not_reaching_range")
@@ -104,6 +114,8 @@ def check_case(ctx, case):
     pts = trace.points
     dt_max = max((b[0] - a[0] for a, b in zip(pts, pts[1:])), default=0.0)
     ctx.count("shots")
+    if case.get("debug"):
+        ctx.count("shots_with_debug_logging_on")
     # ---- muzzle row = stated initial state
     (p0, v0) = refs.initial_state(spec)
     m = runs[0].get(0)
@@ -229,6 +241,8 @@ def gen_case(rng, thorough=False):
     # (measured: 1.6e-2, 3.8e-2 ft/s at 2 ft, 1 ft) - and the statement speaks of refining the step
     h0 = 0.5 if not thorough else rng.choice([0.5, 0.5, 0.25, 0.125])
     case = {"shot": s, "range_ft": r_ft, "rows": n_rows, "h0": h0, "halvings": 2 if not thorough else 3}
+    if rng.random() < 0.08:
+        case["debug"] = True
     if rng.random() < 0.1 and s["atmo"]["kind"] != "vacuum":
         # a custom table sampled from one straight line Cd = c0 + slope M, ending just above the launch Mach number (as tables
         # derived from radar tracks do): the flight starts in the upper half of the last interval and the drag function of the
